@@ -195,9 +195,9 @@ harness(void) {
     VP_ASSERT(v == num, "the numeral written by ldb_encode_int denotes x");
     VP_ASSERT(got[VP_DIGITS] == 0, "ldb_encode_int terminates the string");
     VP_WITNESS("encode-int");
-    return;
+    (void)rc; (void)n; (void)dn; (void)want_tmp; (void)want_cur; (void)want_data; (void)digits;
   }
-#endif
+#else
   VP_ASSUME(num > 0);
 
   rc = ldb_set_current_file(VP_DBNAME, num);
@@ -246,4 +246,5 @@ harness(void) {
       VP_WITNESS("switched");
     }
   }
+#endif
 }
